@@ -188,7 +188,7 @@ def ob_search_order(ctx, res):
         res.fail("searchOrder/entry", sc, "search_cir_tree must delegate once")
         return
     a = [origin(sc, x) for x in c[0]["args"]]
-    if not (a[0].endswith("endianness") and a[1] == "p1" and a[2] == "p2.1" and a[4:] == ["p4", "p5"] and "find(" in a[3] and ".id" in a[3]):
+    if not (a[0].endswith("endianness") and a[1] == "p1" and re.fullmatch(r"p2(\.1|#\w*CirTreeIndex\.1)", a[2]) and a[4:] == ["p4", "p5"] and "find(" in a[3] and ".id" in a[3]):
         res.fail("searchOrder/entry-args", c[0], "search_cir_tree must pass (header endianness, file, index offset, id of the chromosome found by name, start, end); got %s" % a)
         return
     fnd = [n for n in walk_no_nested_fn(sc.body) if n.k == "mcall" and n["method"] == "find"]
@@ -387,7 +387,13 @@ def ob_cached_siblings(ctx, res):
     for file, ty in ((RW, "BigWigRead"), (RB, "BigBedRead")):
         c = ctx.ast.fn(file, "cached")
         t = up(c.body)
-        if "CachedBBIFileRead::new(self.read)" not in t or "info: self.info" not in t:
+        lit_ = [n for n in walk_no_nested_fn(c.body) if n.k == "struct" and n["path"].split("::")[-1] in (ty, "Self")]
+        fo = {x["name"]: origin(c, x["e"]) for x in lit_[0]["fields"]} if len(lit_) == 1 else {}
+        if len(lit_) != 1:
+            res.undecided("cachedSiblings/%s/cached" % ty, c, "cached() does not build the reader with one struct literal")
+            continue
+        okc = re.fullmatch(r"(CachedBBIFileRead::)?new\((self|p0)(\.read|#\w+\.read)\)", fo.get("read", "")) and "CachedBBIFileRead::new(" in t and re.fullmatch(r"(self|p0)(\.info|#\w+\.info)", fo.get("info", ""))
+        if not okc and ("CachedBBIFileRead::new(self.read)" not in t or "info: self.info" not in t):
             res.fail("cachedSiblings/%s/cached" % ty, c, "cached() must wrap the same reader and keep the same info")
         else:
             res.ok(c, "%s::cached(): same info, reader wrapped" % ty)
